@@ -165,6 +165,8 @@ def check(ctx):
     symmetry.check_transpose_complete(ctx)
     patterns.check_state_written_only_when_initialising(ctx)
     vectors.check_imputer_vector_width(ctx)
+    vectors.check_decode_pair(ctx)
+    ctx.floor('A6p', 2, 'returns of a decoded (vector, matrix) pair')
     ctx.floor('A21w', 4, 'eager imputers')
     ctx.floor('A13i', 8, 'writes of pattern-encoder state')
     ctx.floor('A23t', 2, 'transposed copies (settings, existence pattern)')
@@ -177,6 +179,8 @@ from ..selftest import V  # noqa: E402
 
 PP = 'optimization/assign_enc/patterns/patterns.py'
 VARIANTS = [
+    V('imputer-returns-candidate-with-decoded-matrix', 'optimization/assign_enc/lazy/imputation/delta.py',
+      [("                dv, matrix = results\n                if validate(matrix):\n                    return dv, matrix\n", "                _, dv_matrix = results\n                if validate(dv_matrix):\n                    return dv, dv_matrix\n")], key='A6p'),
     V('closest-imputer-compares-full-width', 'optimization/assign_enc/eager/imputation/closest.py',
       [("np.array(vector)[:design_vectors.shape[1]]", "np.array(vector)")], key='A21w'),
     V('delta-imputer-keys-full-width', 'optimization/assign_enc/eager/imputation/delta.py',
